@@ -205,8 +205,9 @@ def histParse (st : HState) (sid r : String) (pv : Nat) : Option HState :=
           some { st with streams := setKey sid (tot, rest) st.streams,
                          out := s!"{tot - rest.length}@none" :: st.out }
       | (.error e, rest) =>
+          let tag := if Model.Msg.frameAccepted st.magic rem then "@payload" else ""
           some { st with streams := setKey sid (tot, rest) st.streams,
-                         out := s!"err:{e.family}@{tot - rest.length}" :: st.out }
+                         out := s!"err:{e.family}@{tot - rest.length}{tag}" :: st.out }
 
 def histStep (st : HState) (step : String) : Option HState :=
   match step.splitOn "#" with
